@@ -170,7 +170,7 @@ func (lc *lifecycle) modelOpen() (open bool, determinate bool) {
 
 func lifecycleHarness(rc *RunCtx) {
 	tp := rc.Tape
-	s := rc.NewSim(20000, 30*time.Minute)
+	s := rc.NewSim(rc.Scale(20000, 60000), 30*time.Minute)
 	lc := &lifecycle{rc: rc, s: s, inbound: lcInbound(), enumPoint: -1}
 	st := NewSimStream(rc, "c0")
 	lc.st = st
@@ -226,7 +226,7 @@ func lifecycleHarness(rc *RunCtx) {
 			default:
 				flushFaultAt = p - 2*(L+1) - 8 - 3
 			}
-		} else if lc.nFaultEpochs < 5 {
+		} else if lc.nFaultEpochs < rc.Scale(5, 10) {
 			switch tp.Intn("env", 5) {
 			case 0, 1:
 				kind, at = "eof", tp.Intn("env", L+1)
@@ -487,7 +487,7 @@ func lifecycleHarness(rc *RunCtx) {
 			tr.SetMonitor(&recMonitor{lc: lc, base: &frugal.BaseFTransportMonitor{MaxReopenAttempts: lc.maxAtt, InitialWait: lc.initW, MaxWait: lc.maxW}})
 		}
 		doOp("open", true)
-		n := 2 + tp.Intn("ops", 9)
+		n := 2 + tp.Intn("ops", rc.Scale(9, 24))
 		if lc.enumPoint >= 0 {
 			// make sure the enumerated write/flush/read indices are reached
 			for i := 0; i < 3; i++ {
